@@ -201,7 +201,7 @@ MsgRecv(e, ms, steps, i, w, fx, out, acc) ==      \* acc = [lost, stale, ctxok]
             fx2 == IF complete THEN Del(fx, m.fid) ELSE Put(fx, m.fid, [ctx EXCEPT !.slots = sl])
             out2 == IF complete THEN Append(out, ctx.pid) ELSE out
             \* contexts still present afterwards are bound to the log; the ones that vanished incomplete are the named deviation
-            after == ToSet(steps[i])
+            after == IF i <= Len(steps) THEN ToSet(steps[i]) ELSE DOMAIN fx2    \* total: an execution that stopped early logged no step
             fx3 == RestrictTo(fx2, after)
             gone == {fx2[f].pid : f \in (DOMAIN fx2) \ after}
         IN MsgRecv(e, ms, steps, i + 1, w2, fx3, out2,
